@@ -11,8 +11,9 @@
    C undefined behaviour made total here as gcc/x86-64 executes it (stated in the evidence,
    excluded from the correspondence where noted):
      * signed overflow of + - * and unary -  : wraps (this IS the property's claim);
-     * INT_MIN / -1, INT_MIN % -1 with the raw operators (cdiv/cmod; still used by the
-       enum arms of front/constred.c)        : the idiv instruction traps (SIGFPE) -> ISigFpe;
+     * INT_MIN / -1, INT_MIN % -1 with the raw operators (cdiv/cmod; no evaluator of the tree
+       uses them any more: VM 7c75cd1, constred.c b04663c + 355bd8f, enumred.c dfe213c; kept as
+       the reference the guarded forms are compared with) : the idiv instruction traps -> ISigFpe;
      * shift count outside 0 <= k < n        : the count is masked to its low log2 n bits
                                                (excluded from the correspondence);
      * << of a negative / overflowing value  : wraps. *)
